@@ -416,6 +416,23 @@ Definition div_after (prev : option token) : bool :=
 
 Definition is_ident_or_dot (c : N) := is_ident_char c || (c =? 46).
 
+(* head tests (used instead of numeral patterns: same behaviour, friendlier to proofs) *)
+Definition hd_sat (p : N -> bool) (s : str) : bool := match s with x :: _ => p x | [] => false end.
+Definition hd_is (c : N) (s : str) : bool := hd_sat (fun x => x =? c) s.
+Definition is_dur_first (c : N) := is_letter c || (c =? 181).
+Definition is_dur_char (c : N) := is_letter c || is_digit c || (c =? 181).
+
+(* where the parser calls parseRegex (ScanDelimited) instead of Scan: after =~ !~, and at the start of a call argument *)
+Definition delim_ctx (last : option token) (stack : list bool) : bool :=
+  match last with
+  | Some (TOp OEqRegex) | Some (TOp ONeqRegex) => true
+  | Some TLParen | Some TComma => match stack with true :: _ => true | _ => false end
+  | _ => false
+  end.
+(* does this parenthesis open a call's argument list?  (identifier immediately followed by it) *)
+Definition call_ctx (last : option token) (ws_before : bool) : bool :=
+  match last with Some (TIdent _) | Some TDistinct => negb ws_before | _ => false end.
+
 (* scanner state: previous non-whitespace token (as Scan records it), whether whitespace was just seen, and the stack
    of open parentheses (true = the parenthesis opens a call's argument list) used to decide where the parser calls
    parseRegex (ScanDelimited) instead of Scan *)
@@ -432,33 +449,28 @@ Fixpoint scan_fuel (fuel : nat) (s : str) (prev : option token) (ws_before : boo
         let '(_, rest) := take_while is_ws r [] in TWs :: scan_fuel f rest prev true last stack
       else if is_letter c || (c =? 95) then
         let '(w, rest) := take_while is_ident_or_dot s [] in
-        match rest with
-        | 34 :: rest' =>    (* bare prefix immediately followed by a quoted part: the quoted part wins *)
-            match unquote 34 rest' [] with
+        if hd_is 34 rest then    (* bare prefix immediately followed by a quoted part: the quoted part wins *)
+            match unquote 34 (tl rest) [] with
             | Some (v, rest'') => emit (TIdent v) rest'' stack
             | None => [TIllegal]
             end
-        | _ => match kw_lookup keywords (lower w) with
-               | Some code => emit (keyword_tok code) rest stack
-               | None => emit (TIdent w) rest stack
-               end
-        end
-      else if is_digit c || ((c =? 46) && match r with c1 :: _ => is_digit c1 | [] => false end) then
+        else match kw_lookup keywords (lower w) with
+             | Some code => emit (keyword_tok code) rest stack
+             | None => emit (TIdent w) rest stack
+             end
+      else if is_digit c || ((c =? 46) && hd_sat is_digit r) then
         let '(d1, r1) := take_while is_digit s [] in
-        match r1 with
-        | 46 :: r2 =>
+        if hd_is 46 r1 then
+            let r2 := tl r1 in
             let '(d2, r3) := take_while is_digit r2 [] in
             match d2 with
             | [] => emit (TNumber d1) r2 stack
             | _ => emit (TNumber (d1 ++ 46 :: d2)) r3 stack
             end
-        | c2 :: _ =>
-            if is_letter c2 || (c2 =? 181) then
-              let '(w, r3) := take_while (fun x => is_letter x || is_digit x || (x =? 181)) r1 [] in
+        else if hd_sat is_dur_first r1 then
+              let '(w, r3) := take_while is_dur_char r1 [] in
               emit (TDuration (d1 ++ w)) r3 stack
-            else emit (TInteger d1) r1 stack
-        | [] => emit (TInteger d1) r1 stack
-        end
+        else emit (TInteger d1) r1 stack
       else if c =? 34 then
         match unquote 34 r [] with
         | Some (v, rest) => emit (TIdent v) rest stack
@@ -470,46 +482,36 @@ Fixpoint scan_fuel (fuel : nat) (s : str) (prev : option token) (ws_before : boo
         | None => [TIllegal]
         end
       else if c =? 47 then
-        let delim := match last with
-                     | Some (TOp OEqRegex) | Some (TOp ONeqRegex) => true
-                     | Some TLParen | Some TComma => match stack with true :: _ => true | _ => false end
-                     | _ => false end in
-        if delim then
+        if delim_ctx last stack then
           match regex_delim r [] with
           | Some (v, rest) => TRegex v :: scan_fuel f rest prev false (Some (TRegex v)) stack
           | None => [TIllegal]
           end
         else if div_after prev then emit (TOp ODiv) r stack
-        else match r with
-             | 42 :: _ => [TIllegal]    (* comment: outside the modelled domain *)
-             | _ => match regex_raw r true [] with
-                    | Some (v, rest) => emit (TRegex v) rest stack
-                    | None => [TIllegal]
-                    end
+        else if hd_is 42 r then [TIllegal]    (* comment: outside the modelled domain *)
+        else match regex_raw r true [] with
+             | Some (v, rest) => emit (TRegex v) rest stack
+             | None => [TIllegal]
              end
-      else if c =? 40 then
-        let call := match last with Some (TIdent _) | Some TDistinct => negb ws_before | _ => false end in
-        emit TLParen r (call :: stack)
+      else if c =? 40 then emit TLParen r (call_ctx last ws_before :: stack)
       else if c =? 41 then emit TRParen r (tl stack)
       else if c =? 44 then emit TComma r stack
       else if c =? 43 then emit (TOp OAdd) r stack
-      else if c =? 45 then match r with 45 :: _ => [TIllegal] | _ => emit (TOp OSub) r stack end
+      else if c =? 45 then if hd_is 45 r then [TIllegal] else emit (TOp OSub) r stack
       else if c =? 42 then emit (TOp OMul) r stack
       else if c =? 37 then emit (TOp OMod) r stack
       else if c =? 38 then emit (TOp OBitAnd) r stack
       else if c =? 124 then emit (TOp OBitOr) r stack
       else if c =? 94 then emit (TOp OBitXor) r stack
-      else if c =? 61 then match r with 126 :: r' => emit (TOp OEqRegex) r' stack | _ => emit (TOp OEq) r stack end
-      else if c =? 33 then match r with
-                           | 61 :: r' => emit (TOp ONeq) r' stack
-                           | 126 :: r' => emit (TOp ONeqRegex) r' stack
-                           | _ => [TIllegal] end
-      else if c =? 62 then match r with 61 :: r' => emit (TOp OGte) r' stack | _ => emit (TOp OGt) r stack end
-      else if c =? 60 then match r with
-                           | 61 :: r' => emit (TOp OLte) r' stack
-                           | 62 :: r' => emit (TOp ONeq) r' stack
-                           | _ => emit (TOp OLt) r stack end
-      else if c =? 58 then match r with 58 :: r' => emit TDColon r' stack | _ => [TIllegal] end
+      else if c =? 61 then if hd_is 126 r then emit (TOp OEqRegex) (tl r) stack else emit (TOp OEq) r stack
+      else if c =? 33 then if hd_is 61 r then emit (TOp ONeq) (tl r) stack
+                           else if hd_is 126 r then emit (TOp ONeqRegex) (tl r) stack
+                           else [TIllegal]
+      else if c =? 62 then if hd_is 61 r then emit (TOp OGte) (tl r) stack else emit (TOp OGt) r stack
+      else if c =? 60 then if hd_is 61 r then emit (TOp OLte) (tl r) stack
+                           else if hd_is 62 r then emit (TOp ONeq) (tl r) stack
+                           else emit (TOp OLt) r stack
+      else if c =? 58 then if hd_is 58 r then emit TDColon (tl r) stack else [TIllegal]
       else if c =? 46 then emit TDot r stack
       else [TIllegal]
     end
